@@ -201,10 +201,65 @@ def case_icp_init(H):
             H.certify('%s/final-alignment-target[%d]' % (name, i), x, y, [unit_rel('SE3', xs)], hyps=hyp, replay=replay, key='C17/ICP/init')
 
 
+def case_icp_second_call(H):
+    """the same ICP module used for two consecutive registrations (odometry loop): the second call must iterate again (the
+    controller is re-armed per call) - with stubbed kernels, it must ask for correspondences at least once and perform its final
+    alignment on the second call's own clouds"""
+    name = 'C17/ICP/second-call-on-the-same-module'
+    import pypose.module.icp as icpmod
+    from pypose.utils.stepper import ReduceToBason
+
+    def prog(m):
+        src, tgt = torch.randn(4, 3, dtype=DT), torch.randn(4, 3, dtype=DT)
+        src2, tgt2 = torch.randn(4, 3, dtype=DT), torch.randn(4, 3, dtype=DT)
+        s2 = m.symbolic(src2, 's')
+        counts, finals = [0, 0], []
+        which = [0]
+        real_knn, real_svdtf = icpmod.knn, icpmod.svdtf
+
+        def stub_knn(a, b, k=1, ord=2, dim=-1, **kw):
+            counts[which[0]] += 1
+            return torch.full((4, 1), 0.5 / counts[which[0]], dtype=DT), torch.zeros(4, 1, dtype=torch.int64)
+
+        def stub_svdtf(a, b):
+            finals.append((which[0], m.full_terms(a)))
+            return pp.identity_SE3(dtype=DT)
+        icpmod.knn, icpmod.svdtf = stub_knn, stub_svdtf
+        try:
+            icp = pp.module.ICP(stepper=ReduceToBason(steps=3))
+            icp(src, tgt)
+            which[0] = 1
+            icp(src2, tgt2)
+        finally:
+            icpmod.knn, icpmod.svdtf = real_knn, real_svdtf
+        last = [a for (w, a) in finals if w == 1]
+        return counts, (last[-1] if last else None), s2
+
+    def replay(model):
+        torch.manual_seed(2)
+        icp = pp.module.ICP()
+        worst = 0.0
+        for call in range(3):
+            src = torch.randn(30, 3, dtype=DT)
+            G = pp.SE3(torch.tensor([0.03, 0.02, -0.02, 0.01, 0.015, -0.01, 1.0], dtype=DT))
+            G = pp.SE3(torch.cat([G.tensor()[:3], G.tensor()[3:] / G.tensor()[3:].norm()]))
+            tgt = G.Act(src)
+            out = icp(src, tgt)
+            e = (out.Act(src) - tgt).abs().max().item()
+            if call > 0:
+                worst = max(worst, e)
+        return worst > 1e-6, 'a second / third registration with the same ICP module does not recover a small exact rigid perturbation (max error %.3g)' % worst
+
+    for ctx, (counts, fin, s2) in run_paths(H, name, prog, max_paths=4):
+        H.prove(name + '/second-call-iterates', [], z3.BoolVal(counts[1] >= 1 and counts[1] == counts[0]), replay=replay, key='C17/ICP/reuse')
+        H.prove(name + '/second-call-final-alignment-on-its-own-source', [], z3.BoolVal(fin is not None) if fin is None else z3.And([x == y for x, y in zip(fin, s2)]),
+                replay=replay, key='C17/ICP/reuse')
+
+
 def run(H):
     H.assumptions += ['exact real arithmetic', 'torch.linalg.svd meets its contract', 'the Kabsch / Umeyama closed forms are the least-squares optima (cited theorems)']
     H.bounds += ['N in {3, 4} symbolic corresponding points (the algebra does not depend on N beyond the centroids)', 'single batch']
-    jobs = [lambda: case_svd(H, 'svdtf', 3), lambda: case_svd(H, 'svdstf', 3, True), lambda: case_svd(H, 'svdstf', 3, False), lambda: case_icp_init(H)]
+    jobs = [lambda: case_svd(H, 'svdtf', 3), lambda: case_svd(H, 'svdstf', 3, True), lambda: case_svd(H, 'svdstf', 3, False), lambda: case_icp_init(H), lambda: case_icp_second_call(H)]
     if not H.quick:
         jobs += [lambda: case_svd(H, 'svdtf', 4), lambda: case_svd(H, 'svdstf', 4, True)]
     for j in jobs:
